@@ -13,6 +13,7 @@ func HarnessLog2() {
 	n := vh.NondetU32("n")
 	vh.Assume(n >= 1)
 	rv := domains.FastLog2Floor(n)
+	vh.Observe("rv", rv)
 	vh.Assert("C19/log2-floor", vh.And(rv < 32, (n>>rv) == 1))
 	vh.Reach("end")
 }
@@ -27,6 +28,7 @@ func HarnessCompact() {
 	e := vh.Concrete(bits >> 24)
 	m := big.NewInt(int64(bits & 0x7fffff))
 	neg := bits&0x800000 != 0
+	vh.Observe("target", got)
 	abs := vh.IteBig(neg, new(big.Int).Neg(got), got)
 	if e >= 3 {
 		k := new(big.Int).Exp(big.NewInt(256), big.NewInt(int64(e-3)), nil)
@@ -55,6 +57,7 @@ func HarnessWork() {
 	// for non-positive targets the divisor is replaced by 1 to keep the division defined; the value is unused
 	den := vh.IteBig(pos, new(big.Int).Add(t, one), one)
 	want := vh.IteBig(pos, new(big.Int).Div(two256, den), big.NewInt(0))
+	vh.Observe("work", got)
 	vh.Assert("C19/work", vh.BigEq(got, want))
 	vh.Assert("C19/work-nonneg", vh.BigLe(big.NewInt(0), got))
 	vh.Reach("end")
